@@ -11,7 +11,7 @@ from corr_world import ScriptedWrapper, DRIVER
 
 class HeurWrapper(ScriptedWrapper):
     def __init__(self, fail=False):
-        super().__init__(); self.calls = []; self.k = 0; self.fail = fail
+        super().__init__(); self.calls = []; self.k = 0; self.fail = fail; self.first_value = None; self.expected_tol = None
     def set_main_variables(self): pass
     def generate_problem(self, o): self.objective = o
     def solve(self, **kw):
@@ -21,7 +21,9 @@ class HeurWrapper(ScriptedWrapper):
         rng = np.random.default_rng(self.k)
         A = rng.integers(-2, 3, size=(n, n)).astype(float); self.optimal_G = A.T @ A
         self.optimal_F = rng.integers(-3, 4, size=(m,)).astype(float) + 10.0 * self.k
-        return "scripted", "none", float(self.optimal_F[self.objective.counter])
+        v = float(self.optimal_F[self.objective.counter])
+        if self.k == 1: self.first_value = v
+        return "scripted", "none", v
     def _recover_dual_values(self):
         self.calls.append("recover%d" % self.k)
         n = Point.counter; res = np.eye(n) * self.k
@@ -29,7 +31,11 @@ class HeurWrapper(ScriptedWrapper):
         for i, it in enumerate(self._list_of_constraints_sent_to_solver):
             duals.append(float(100 * self.k + i) if not hasattr(it, "shape") else np.eye(it.shape[0]) * self.k)
         return duals, res
-    def prepare_heuristic(self, wc, tol): self.calls.append("prepare"); self.prep = (wc, tol)
+    def prepare_heuristic(self, wc, tol):
+        # contract of the flow model: the heuristic problem is prepared with the value of the FIRST solve and with the
+        # tolerance the user passed, unchanged (absolute tolerance)
+        ok = (wc == self.first_value) and (tol == self.expected_tol)
+        self.calls.append("prepare" if ok else "prepare[wc=%r,tol=%r;expected wc=%r,tol=%r]" % (wc, tol, self.first_value, self.expected_tol)); self.prep = (wc, tol)
     def heuristic(self, W): self.calls.append("heuristic")
 
 
@@ -58,10 +64,11 @@ def one(seed):
     fail = rnd.random() < .1
     pep, c0 = build(rnd)
     w = HeurWrapper(fail=fail)
+    w.expected_tol = rnd.choice([1e-5, 1e-4, 1e-3, 1e-2])
     raises = False; ret = None
     try:
         with contextlib.redirect_stdout(io.StringIO()):
-            ret = pep._solve_with_wrapper(w, verbose=0, return_primal_or_dual=mode,
+            ret = pep._solve_with_wrapper(w, verbose=0, return_primal_or_dual=mode, tol_dimension_reduction=w.expected_tol,
                                           dimension_reduction_heuristic=None if heur == "none" else heur)
     except ValueError:
         raises = True
